@@ -172,6 +172,13 @@ func (c *e6dCtx) condFacts(cond ast.Expr, pol bool, f bfact) {
 				}
 			}
 		}
+		if (op == token.GTR && pol) || (op == token.LEQ && !pol) {
+			if ip, ok := c.pathOf(x.Y); ok {
+				if lp, ok := c.lenOf(x.X); ok {
+					f["lt:"+ip+"|"+lp] = 1
+				}
+			}
+		}
 		l, r := x.X, x.Y
 		// mirrored form K op len(P)
 		if _, ok := c.lenOf(l); !ok {
